@@ -424,6 +424,26 @@ class Facts:
         root = self.by_dp.get(body.root_dp, body)
         return [root] + self.closures_of(root.dp)
 
+    def with_helpers(self, body, prefix, limit=6, keep=None):
+        """the body, its closures, and the crate-local non-closure functions under `prefix` that it calls (transitively, at most
+        `limit` bodies): the private helpers a function delegates part of its work to. A rule that reads "what function F does"
+        reads this group, so that extracting a helper out of F does not change the verdict."""
+        group, todo = [], [body]
+        while todo and len(group) < limit:
+            cur = todo.pop(0)
+            if cur in group:
+                continue
+            group.append(cur)
+            for fb in self.family(cur):
+                for _, t in fb.calls():
+                    cp = t["callee"].get("path") or ""
+                    if not cp.startswith(prefix) or (keep and not keep(cp)):
+                        continue
+                    cb = self.body(cp)
+                    if cb is not None and cb.kind != "Closure" and cb not in group and cb not in todo:
+                        todo.append(cb)
+        return group
+
     def adt(self, path):
         for a in self.tables["adts"]:
             if a["path"] == path:
